@@ -9,3 +9,5 @@ def run(ctx):
     variable_get(ctx)
     from ..scen_misc import functional
     functional(ctx)
+    from ..conform import conformance
+    conformance(ctx, ['binding'])      # the references the obligations are stated against, compared with jawk::go on concrete runs (validates the oracles; never decides)
